@@ -217,7 +217,7 @@ def build_table() -> None:
     E("disallow_untyped_defs", "untyped_defs", F, T)
     E("enable_error_code", "ignore_no_code", None, "ignore-without-code")
     E("extra_checks", "extra_checks", F, T)
-    E("strict_concatenate", "sink", F, T, tier="thorough")   # witness: the deprecation warning printed by main.py
+    E("strict_concatenate", "sink", F, T, same=True, tier="thorough")   # deprecated alias of extra_checks: only the global spelling prints a warning
     E("follow_imports", "follow", "normal", "skip", mod="b")
     E("follow_imports", "follow", "silent", "error", mod="b", tier="thorough")
     E("follow_imports_for_stubs", "follow_stub", F, T, extra=["follow_imports = skip"], mod="b")
@@ -258,7 +258,7 @@ def build_table() -> None:
     E("show_column_numbers", "column", F, T)
     E("show_error_end", "column", F, T, extra=["show_column_numbers = True"])
     E("hide_error_codes", "column", F, T)
-    E("hide_error_codes", "untyped_global", F, T, extra=["show_error_code_links = True"], tier="thorough")
+    E("hide_error_codes", "untyped_global", F, T, extra=["show_error_code_links = True"])
     E("python_version", "pyversion", "3.11", "3.12", extra=["bazel = True"], only=["config"], tier="thorough", tag="bazel")
     E("pretty", "column", F, T)
     E("color_output", "column", T, F, env={"MYPY_FORCE_COLOR": "1"})
